@@ -155,6 +155,10 @@ impl Ctx {
             g.violations.push(Violation { key: key.to_string(), what: what.to_string(), replay });
         }
     }
+    /// (key, description) of the recorded violations (used by replayers that run a check's own step function)
+    pub fn violations_list(&self) -> Vec<(String, String)> {
+        self.inner.lock().unwrap().violations.iter().map(|v| (v.key.clone(), v.what.clone())).collect()
+    }
     pub fn violation_count(&self) -> u64 {
         self.inner.lock().unwrap().violation_keys.values().sum()
     }
